@@ -54,7 +54,7 @@ def main() -> None:
     @settings(database=None, deadline=None, suppress_health_check=list(HealthCheck))
     @given(prop.strategy(tier))
     def test(case):
-        out = prop.run_case(case)
+        out = runner.guarded_run(prop, case)
         st['runs'] += 1
         for k, v in out.labels.items():
             d = st['labels'].setdefault(k, {})
